@@ -18,7 +18,7 @@ impl Prop for C17 {
         "C17"
     }
     fn rule_text(&self) -> String {
-        "case = tap-dance (lazy / eager) with 1-4 distinct marker actions, T in {2,5,20,200}, one other key (plain or a mouse button, i.e. a custom action only); schedules: 1-6 taps with press-to-press gaps from {T-1,T,T+1,small}, the last tap optionally held, optionally interrupted by the other key, or the other key already held before the dance and released at an arbitrary point of it, then silence. A reference function segments the presses into dances by the 'gap < T' rule and predicts the marker sequence. non-trivial = a marker was output; distinct = config x schedule hash.".into()
+        "case = tap-dance (lazy / eager) with 1-4 distinct marker actions (the first one a plain key, a one-key macro, a mouse button or XX), T in {2,5,20,200}, one other key (plain or a mouse button, i.e. a custom action only); schedules: 1-6 taps with press-to-press gaps from {T-1,T,T+1,small}, the last tap optionally held, optionally interrupted by the other key, or the other key already held before the dance and released at an arbitrary point of it, then silence. A reference function segments the presses into dances by the 'gap < T' rule and predicts the marker sequence. non-trivial = a marker was output; distinct = config x schedule hash.".into()
     }
     fn runs(&self, tier: Tier) -> u64 {
         match tier {
@@ -35,13 +35,25 @@ impl Prop for C17 {
         let mut case = Case { prop: "C17".into(), seed, ..Default::default() };
         // the other key is a plain key or a mouse-button key (a custom action only)
         let b_custom = r.chance(250);
+        // the first listed action is a plain key, or an action of another kind: a one-key macro, a
+        // mouse button (a custom action), or no action at all
+        let first_kind = *r.pick(&["key", "key", "key", "macro", "mouse", "noop"]);
+        let first_kind = if first_kind == "mouse" && b_custom { "key" } else { first_kind };
+        let mut acts: Vec<String> = MARKERS[..len].iter().map(|m| m.to_string()).collect();
+        acts[0] = match first_kind {
+            "macro" => "(macro x)".to_string(),
+            "mouse" => "mrgt".to_string(),
+            "noop" => "XX".to_string(),
+            _ => "x".to_string(),
+        };
         case.cfg = format!(
             "(defcfg rapid-event-delay {red})\n(defsrc a b)\n(deflayer l0 ({} {t} ({})) {})\n",
             if eager { "tap-dance-eager" } else { "tap-dance" },
-            MARKERS[..len].join(" "),
+            acts.join(" "),
             if b_custom { "mlft" } else { "1" }
         );
         case.set("b_custom", b_custom as u8);
+        case.set("first_kind", first_kind);
         let (a, b) = (oscode_of("a"), oscode_of("b"));
         let n = r.range(1, 6);
         let mut ops = vec![];
@@ -115,6 +127,19 @@ impl Prop for C17 {
         st.gap(300);
         st.finish();
         let mut outs = st.trace.outs.clone();
+        let first_kind = case.param("first_kind").unwrap_or("key").to_string();
+        if first_kind == "mouse" {
+            // the right mouse button plays the role of the first marker
+            for e in outs.iter_mut() {
+                if e.key == "Right" && e.kind == OutKind::MouseDown {
+                    e.kind = OutKind::Press;
+                    e.key = "X".into();
+                } else if e.key == "Right" && e.kind == OutKind::MouseUp {
+                    e.kind = OutKind::Release;
+                    e.key = "X".into();
+                }
+            }
+        }
         if case.param_flag("b_custom") {
             for e in outs.iter_mut() {
                 if e.key == "Left" && e.kind == OutKind::MouseDown {
@@ -233,6 +258,11 @@ impl Prop for C17 {
         }
         let mut all_expected: Vec<Vec<String>> = vec![];
         expand(&events, 0, 0, 0, len, t, red, eager, &mut vec![], &mut all_expected, &mut boundary);
+        if first_kind == "noop" {
+            for seq in all_expected.iter_mut() {
+                seq.retain(|k| k != "X");
+            }
+        }
         let expected = all_expected.clone();
         let got: Vec<String> = outs.iter().filter(|e| e.kind == OutKind::Press).map(|e| e.key.clone()).collect();
         o.nontrivial = !got.is_empty();
@@ -252,7 +282,7 @@ impl Prop for C17 {
         }
         // the last chosen action stays pressed until the final release (one press held)
         if !o.failed() {
-            if let Some(last_marker) = outs.iter().rev().find(|e| e.kind == OutKind::Press && e.key != "Kb1") {
+            if let Some(last_marker) = outs.iter().rev().find(|e| e.kind == OutKind::Press && e.key != "Kb1").filter(|e| !(first_kind == "macro" && e.key == "X")).filter(|_| first_kind != "noop") {
                 let rel = outs.iter().rev().find(|e| e.kind == OutKind::Release && e.key == last_marker.key).map(|e| e.t).unwrap_or(0);
                 if rel <= a_final_release && rel >= last_marker.t {
                     o.set_fail("C17:released-before-final-release", format!("last action {} released at {rel}, the key's final release arrives at {a_final_release}: {}", last_marker.key, outs_short(&outs)), vec![]);
